@@ -159,9 +159,24 @@ def run(ctx):
                 narrow = gen.pick(rng, (('bin', '>', A.var('qi'), A.num('0')), ('bin', '<', ('bin', '+', A.var('qi'), A.num('1')), r2)))
                 body = ('bin', gen.pick(rng, ('and', 'or', 'implies')), eq, narrow) if rng.random() < 0.6 else ('bin', 'and', narrow, eq)
                 e = ('quant', gen.pick(rng, ('forall', 'exists')), 'qi', ('set', gen.pick(rng, ((r1,), (r1, r1), (r1, r2)))), body)
+        forced_level = None
+        if n % 17 == 0 and k != 4:
+            # a free variable that has the name of a variable bound by a quantifier next to it, used on both sides of
+            # the quantifier at kinds that are sometimes compatible and sometimes not (free and bound occurrences are
+            # different references; all free ones are one reference)
+            from . import c05
+            tg4 = gen.Typed(rng, this=case.this, aliases=case.aliases, maxdepth=1)
+            arr, _ = tg4.ref_where(lambda pt: pt[0] == 'arr' and pt[1] == gen.NUM, 1)
+            if arr is not None:
+                v = gen.pick(rng, ('i', 'j'))
+                K1, K2 = gen.pick(rng, ('BOOL', 'NUMBER', 'STRING')), gen.pick(rng, ('BOOL', 'NUMBER', 'STRING'))
+                q = ('quant', gen.pick(rng, ('forall', 'exists')), v, arr, ('bin', '>', A.var(v), A.num('1')))
+                e = ('bin', 'and', ('bin', 'and', c05.USES[K1](A.var(v)), q), c05.USES[K2](A.var(v)))
+                aliases = [v]
+                forced_level = gen.pick(rng, ('condition', 'predicate'))
         if not A.renderable(e):
             continue
-        level = gen.pick(rng, ('expression', 'condition', 'predicate')) if e[0] != 'lit' else 'expression'
+        level = forced_level or (gen.pick(rng, ('expression', 'condition', 'predicate')) if e[0] != 'lit' else 'expression')
         toks = A.expr_tokens(e)
         if level == 'predicate':
             toks = ['{'] + toks + ['}']
